@@ -161,17 +161,23 @@ impl Snapshot {
 	/// This is a helper method used by both iterators and optimized operations
 	/// like count
 	pub(crate) fn collect_iter_state(&self) -> Result<IterState> {
-		let active = guardian::ArcRwLockReadGuardian::take(Arc::clone(&self.core.active_memtable))?;
+		Self::collect_iter_state_from(&self.core)
+	}
+
+	/// Same as [`collect_iter_state`](Self::collect_iter_state) for callers that hold
+	/// the core but no `Snapshot` value (building one just for this call would
+	/// unregister the owner's sequence number when it is dropped).
+	pub(crate) fn collect_iter_state_from(core: &Arc<Core>) -> Result<IterState> {
+		let active = guardian::ArcRwLockReadGuardian::take(Arc::clone(&core.active_memtable))?;
 		let immutable =
-			guardian::ArcRwLockReadGuardian::take(Arc::clone(&self.core.immutable_memtables))?;
-		let manifest =
-			guardian::ArcRwLockReadGuardian::take(Arc::clone(&self.core.level_manifest))?;
+			guardian::ArcRwLockReadGuardian::take(Arc::clone(&core.immutable_memtables))?;
+		let manifest = guardian::ArcRwLockReadGuardian::take(Arc::clone(&core.level_manifest))?;
 
 		Ok(IterState {
 			active: active.clone(),
 			immutable: immutable.iter().map(|entry| Arc::clone(&entry.memtable)).collect(),
 			levels: manifest.levels.clone(),
-			versioned_index: self.core.versioned_index.clone(),
+			versioned_index: core.versioned_index.clone(),
 		})
 	}
 
@@ -925,12 +931,7 @@ pub(crate) struct SnapshotIterator<'a> {
 impl SnapshotIterator<'_> {
 	/// Creates a new iterator over a specific key range
 	fn new_from(core: Arc<Core>, seq_num: u64, range: InternalKeyRange) -> Result<Self> {
-		// Create a temporary snapshot to use the helper method
-		let snapshot = Snapshot {
-			core: Arc::clone(&core),
-			seq_num,
-		};
-		let iter_state = snapshot.collect_iter_state()?;
+		let iter_state = Snapshot::collect_iter_state_from(&core)?;
 
 		let merge_iter = KMergeIterator::new_from(iter_state, range);
 
